@@ -155,11 +155,19 @@ func NewResult() *Result {
 	return &Result{Sets: map[string]map[uint64]bool{}, Counters: map[string]int64{}, Known: map[string]*KnownHit{}}
 }
 
+// SetCap bounds every distinct-counted set per worker; beyond it further signatures are dropped and
+// the reported cardinality is a lower bound (flagged in the evidence).
+const SetCap = 150000
+
 func (r *Result) addSet(set, sig string) {
 	m := r.Sets[set]
 	if m == nil {
 		m = map[uint64]bool{}
 		r.Sets[set] = m
+	}
+	if len(m) >= SetCap {
+		r.Counters["distinct_sets_capped_dropped_signatures"]++
+		return
 	}
 	h := fnv.New64a()
 	h.Write([]byte(sig))
